@@ -13,7 +13,7 @@ class Prop(PropBase):
     harness_variants = ['asan', 'asan+epoll']
     defines = {'asan+epoll': ('ENABLE_EPOLL_RECEIVE',)}
     rule = ('the same DIFOP/MSOP stream (all 17 types over the runs; quick: a rotating subset) fed three ways through the real driver: a generated pcap file (plain and VLAN-tagged frames), '
-            'loopback UDP datagrams (select and epoll receivers), decodePacket; user/tail layers 0/4/64; ports distinct / equal / DIFOP port 0; foreign-port, ARP, IPv6, TCP frames interleaved; '
+            'loopback UDP datagrams (select and epoll receivers; paced, and as one burst queued before start()), decodePacket; user/tail layers 0/4/64; ports distinct / equal / DIFOP port 0; foreign-port, ARP, IPv6, TCP frames interleaved; '
             'pcap_repeat on/off; compared: payloads reaching the decoder and clouds, each path against the model and the three paths against each other; '
             'kernel: the declarative filter predicate against libpcap pcap_offline_filter on mutated frames; non-trivial = scenario delivering >= 1 cloud')
     explanation = 'C12_T1..T2 (Coq: pcap extraction of an accepted complete record = raw extraction of its UDP payload; socket = raw for datagrams that fit; port rules) + three-way correspondence on the real driver'
@@ -52,6 +52,8 @@ class Prop(PropBase):
             user, tail = rng.choice([(0, 0), (0, 0), (4, 0), (4, 2), (64, 64)])
             vlan = rng.randrange(2)
             ports = rng.choice(['distinct', 'distinct', 'equal', 'difop0'])
+            if gi < 2:
+                ports = ['equal', 'difop0'][gi]     # single-socket groups: sent as one burst before start() (see below)
             msop = base + 40 + 3 * gi
             difop = {'distinct': msop + 1, 'equal': msop, 'difop0': 0}[ports]
             repeat = (gi % 5 == 4) and not l.jumbo
@@ -112,10 +114,12 @@ class Prop(PropBase):
                 if variant == 'sock' and tier == 'quick' and gi % 2 == 0 and not l.jumbo:
                     continue
                 s = scen.Scn(name + '_' + variant)
-                s.lines.append(pktgen.Cfg(**cfgkw).line(0, l)); s.lines.append(f'N 0 2 {msop + 400} {difop + 400 if difop else 0} 0 0')
+                # one socket and a modest volume: queue the whole burst before the receiver starts (mode 4), else pace the datagrams (mode 2)
+                burst = ports != 'distinct' and not l.jumbo and sum(len(w) for _, w in wired) < 100000
+                s.lines.append(pktgen.Cfg(**cfgkw).line(0, l)); s.lines.append(f'N 0 {4 if burst else 2} {msop + 400} {difop + 400 if difop else 0} 0 0')
                 for k, w in wired:
                     s.lines.append(f'U 0 {port_of(k) + 400 if port_of(k) else 0} {w.hex()}')
-                    if rng.random() < 0.3:
+                    if rng.random() < 0.3 and not burst:
                         s.lines.append(f'U 0 {base + 998} {w[:50].hex()}')
                 s.lines.append('GO 0')
                 acc.append(s.text(residual=()))
